@@ -275,6 +275,8 @@ def check(run):
         run.broke('only %d consumed std::move sites found in the library (about 100 expected)' % nmv_)
     if ninv < 3:
         run.broke('only %d library functions that invoke a handler inline found (queue::incoming_packet and on_lookup x2 at least)' % ninv)
+    run.clause('destroying a resolver with a lookup pending is safe: the aborted completion of its timer runs when the resolver is gone, so on_lookup returns on operation_aborted before it touches any member (shared with C04)')
+    p04.resolver_abort_early_return(run)
     run.clause('closing or destroying an acceptor leaves the OTHER objects behaving: every connection still queued is reset, so its connector\'s async_connect completes (shared with C07: close-drains-accept-queue)')
     import p07 as _p07
     _p07.accept_queue_drained_rule(run)
